@@ -3,12 +3,16 @@ package p2prig
 import (
 	"encoding/json"
 	"fmt"
+	"io"
 	"math/rand"
+	"net"
+	"net/http"
 	"os"
 	"os/exec"
 	"path/filepath"
 	"runtime/pprof"
 	"strings"
+	"sync"
 	"sync/atomic"
 	"time"
 
@@ -50,26 +54,30 @@ func (p *slowPublisher) Publish(_ string, data []byte, _ ...centrifuge.PublishOp
 
 // NodeSpec describes one scripted node of a scenario.
 type NodeSpec struct {
-	Kind            string `json:"kind"`               // honest | laggard | forker | forbidden | badcheckpoint
-	Lag             int    `json:"lag,omitempty"`      // laggard: blocks behind the honest tip
-	ForkAt          int    `json:"fork_at,omitempty"`  // forker: height of the fork point on the honest chain
-	ForkLen         int    `json:"fork_len,omitempty"` // forker: length of its own (lighter) branch
-	Cap             int    `json:"cap,omitempty"`      // reply cap (0 = 2000)
-	DisconnectAtMsg int    `json:"disconnect_at_msg,omitempty"`
-	OffendOnce      bool   `json:"offend_once,omitempty"`       // forbidden: after it has delivered the forbidden header once the node follows the honest chain
-	InvBatch        int    `json:"inv_batch,omitempty"`         // inv announcements of this node list its last n blocks, oldest first (the service may know the earlier ones)
-	VersionLag      int    `json:"version_lag,omitempty"`       // the node's version message reports a height this many blocks below its chain: it found blocks while it was being synced from
-	DropAfterHeight int    `json:"drop_after_height,omitempty"` // the node closes the connection right after the getheaders answer that contains this height
-	Silent          bool   `json:"silent,omitempty"`            // never answers getheaders (stall)
-	Inbound         bool   `json:"inbound,omitempty"`           // node dials the service instead of being dialled
-	ForbiddenAt     int    `json:"forbidden_at,omitempty"`      // forbidden: height at which its chain carries the forbidden header
-	BadAt           int    `json:"bad_at,omitempty"`            // badcheckpoint: checkpoint height at which its chain differs
-	MaxAccepts      int    `json:"max_accepts,omitempty"`
-	MaxLive         int    `json:"max_live,omitempty"`         // at most n simultaneous connections (1 = "a single connection")
-	NoDescendants   bool   `json:"no_descendants,omitempty"`   // forbidden: the forbidden header is the last of the node's chain
-	ChildFirst      bool   `json:"child_first,omitempty"`      // forbidden (with orphan_forbidden): the node first pushes the forbidden header's child alone, then [forbidden, child]
-	ForkBelow       int    `json:"fork_below,omitempty"`       // badcheckpoint: the contradicting branch forks this many blocks BELOW the checkpoint and is pushed unsolicited, one header per message
-	OrphanForbidden bool   `json:"orphan_forbidden,omitempty"` // forbidden: the node follows the honest chain and pushes, unsolicited, a forbidden header whose parent the service does not have
+	Kind              string `json:"kind"`               // honest | laggard | forker | forbidden | badcheckpoint
+	Lag               int    `json:"lag,omitempty"`      // laggard: blocks behind the honest tip
+	ForkAt            int    `json:"fork_at,omitempty"`  // forker: height of the fork point on the honest chain
+	ForkLen           int    `json:"fork_len,omitempty"` // forker: length of its own (lighter) branch
+	Cap               int    `json:"cap,omitempty"`      // reply cap (0 = 2000)
+	DisconnectAtMsg   int    `json:"disconnect_at_msg,omitempty"`
+	CloseAfterVersion bool   `json:"close_after_version,omitempty"` // the first connection is lost after the node's version message, before its verack
+	LoseFirstN        int    `json:"lose_first_n,omitempty"`        // the scripted loss (disconnect_at_msg / close_after_version) hits the first n connections, not only the first
+	IgnoreStop        bool   `json:"ignore_stop,omitempty"`         // answers do not end at the stop hash (all that remain, or the cap)
+	SilentFirst       bool   `json:"silent_first,omitempty"`        // the first connection never answers getheaders, later ones do
+	OffendOnce        bool   `json:"offend_once,omitempty"`         // forbidden: after it has delivered the forbidden header once the node follows the honest chain
+	InvBatch          int    `json:"inv_batch,omitempty"`           // inv announcements of this node list its last n blocks, oldest first (the service may know the earlier ones)
+	VersionLag        int    `json:"version_lag,omitempty"`         // the node's version message reports a height this many blocks below its chain: it found blocks while it was being synced from
+	DropAfterHeight   int    `json:"drop_after_height,omitempty"`   // the node closes the connection right after the getheaders answer that contains this height
+	Silent            bool   `json:"silent,omitempty"`              // never answers getheaders (stall)
+	Inbound           bool   `json:"inbound,omitempty"`             // node dials the service instead of being dialled
+	ForbiddenAt       int    `json:"forbidden_at,omitempty"`        // forbidden: height at which its chain carries the forbidden header
+	BadAt             int    `json:"bad_at,omitempty"`              // badcheckpoint: checkpoint height at which its chain differs
+	MaxAccepts        int    `json:"max_accepts,omitempty"`
+	MaxLive           int    `json:"max_live,omitempty"`         // at most n simultaneous connections (1 = "a single connection")
+	NoDescendants     bool   `json:"no_descendants,omitempty"`   // forbidden: the forbidden header is the last of the node's chain
+	ChildFirst        bool   `json:"child_first,omitempty"`      // forbidden (with orphan_forbidden): the node first pushes the forbidden header's child alone, then [forbidden, child]
+	ForkBelow         int    `json:"fork_below,omitempty"`       // badcheckpoint: the contradicting branch forks this many blocks BELOW the checkpoint and is pushed unsolicited, one header per message
+	OrphanForbidden   bool   `json:"orphan_forbidden,omitempty"` // forbidden: the node follows the honest chain and pushes, unsolicited, a forbidden header whose parent the service does not have
 }
 
 // AnnounceSpec is one announcement round after the initial sync.
@@ -100,8 +108,46 @@ type Scenario struct {
 	BadFirst            bool           `json:"bad_first,omitempty"`              // misbehaving nodes are the only reachable ones until they have been dealt with
 	ServeQueries        int            `json:"serve_queries,omitempty"`          // C13: after convergence the honest node asks the service this many getheaders questions over the wire
 	ReOffend            bool           `json:"re_offend,omitempty"`              // C07: at the end a host with two connections sends the forbidden header, its ban (ban_duration_ms, seconds) elapses unnoticed, the second connection offends again, and a newcomer of that host must be refused
+	HeldWebhook         bool           `json:"held_webhook,omitempty"`           // a webhook is registered whose endpoint accepts every delivery and answers none of them until the initial sync has been judged
 	DropNode0AfterSync  bool           `json:"drop_node0_after_sync,omitempty"`  // C06: node 0 drops all connections after the initial sync and stays unreachable; node 1 (a laggard that catches up) is the honest announcer from then on
 }
+
+// losesFirstConnection: the node's first connection is scripted to go away (the service is expected to dial again).
+func (ns NodeSpec) losesFirstConnection() bool {
+	return ns.DisconnectAtMsg > 0 || ns.DropAfterHeight > 0 || ns.CloseAfterVersion
+}
+
+// heldHook is a webhook endpoint that accepts every request and answers none until released.
+type heldHook struct {
+	ln       net.Listener
+	srv      *http.Server
+	pending  atomic.Int64
+	answered atomic.Int64
+	release  chan struct{}
+	once     sync.Once
+}
+
+func newHeldHook() (*heldHook, error) {
+	ln, err := net.Listen("tcp4", "127.0.0.1:0")
+	if err != nil {
+		return nil, err
+	}
+	h := &heldHook{ln: ln, release: make(chan struct{})}
+	h.srv = &http.Server{Handler: http.HandlerFunc(func(w http.ResponseWriter, rq *http.Request) {
+		_, _ = io.Copy(io.Discard, rq.Body)
+		h.pending.Add(1)
+		<-h.release
+		h.pending.Add(-1)
+		h.answered.Add(1)
+		w.WriteHeader(200)
+	})}
+	go func() { _ = h.srv.Serve(ln) }()
+	return h, nil
+}
+
+func (h *heldHook) URL() string { return "http://" + h.ln.Addr().String() + "/hook" }
+func (h *heldHook) Release()    { h.once.Do(func() { close(h.release) }) }
+func (h *heldHook) Close()      { h.Release(); _ = h.srv.Close() }
 
 // Result is what the scenario child reports.
 type Result struct {
@@ -371,6 +417,7 @@ type runner struct {
 	res    *Result
 	nodes  []*Node
 	forbid *chainhash.Hash
+	hook   *heldHook
 	ann    int // index of the node that plays the honest announcer (0 unless node 0 was dropped for good)
 }
 
@@ -434,6 +481,7 @@ func Execute(s *Scenario, dir string) (res *Result) {
 				n.Cap = ns.Cap
 			}
 			n.DisconnectAtMsg = ns.DisconnectAtMsg
+			n.CloseAfterVersion, n.IgnoreStop, n.SilentFirst, n.LoseFirstN = ns.CloseAfterVersion, ns.IgnoreStop, ns.SilentFirst, ns.LoseFirstN
 			n.DropAfterHeight = ns.DropAfterHeight
 			n.VersionLag = ns.VersionLag
 			n.InvBatch = ns.InvBatch
@@ -480,6 +528,15 @@ func Execute(s *Scenario, dir string) (res *Result) {
 		x.nodes = append(x.nodes, n)
 	}
 	_ = single
+	if s.HeldWebhook {
+		h, err := newHeldHook()
+		if err != nil {
+			res.Verdict, res.What = "inconclusive", "cannot start the webhook endpoint: "+err.Error()
+			return
+		}
+		x.hook = h
+		defer h.Close()
+	}
 	// the stack
 	peers := make(map[*peerpkg.Peer]*peerpkg.SyncState)
 	st, err := rig.New(rig.Options{Dir: dir, Peers: peers, Config: func(c *config.AppConfig) {
@@ -494,6 +551,13 @@ func Execute(s *Scenario, dir string) (res *Result) {
 		// reads the payload and takes its time, so that deliveries of consecutive headers overlap)
 		lg := *sv.Logger
 		sv.Notifier.AddChannel(notification.NewWebsocketChannel(&lg, &slowPublisher{x: x}, c.Websocket))
+		if x.hook != nil {
+			// as cmd/main.go: the webhooks service is a notification channel; one webhook is registered
+			sv.Notifier.AddChannel(sv.Webhooks)
+			if _, err := sv.Webhooks.CreateWebhook("", "", "", x.hook.URL()); err != nil {
+				x.count("held_webhook_registration_failed", 1)
+			}
+		}
 	}})
 	if err != nil {
 		res.Verdict, res.What = "inconclusive", "cannot build stack: "+err.Error()
@@ -631,15 +695,43 @@ func Execute(s *Scenario, dir string) (res *Result) {
 		}
 		return false
 	}, 30*time.Second) {
+		for i, ns := range s.Nodes {
+			if ns.losesFirstConnection() && x.slotLost(i, ns, 45*time.Second) {
+				return
+			}
+		}
 		res.Verdict, res.What = "inconclusive", "no connection was established within the watchdog"
 		return
+	}
+	if x.hook != nil {
+		// Deliveries to the registered webhook are accepted and not answered. Storing headers does not depend on their
+		// answers: the sync has to come to rest all the same. If it does not, the deliveries are answered; a sync that then
+		// runs to completion was waiting for a webhook's answer.
+		if err := x.rig.Quiesce(x.st, x.eng, barrierWatchdog); err != nil {
+			pending := x.hook.pending.Load()
+			tip := x.st.Svc.Headers.GetTip()
+			th := int32(-1)
+			if tip != nil {
+				th = tip.Height
+			}
+			x.hook.Release()
+			if pending > 0 && x.rig.Quiesce(x.st, x.eng, barrierWatchdog) == nil && x.waitFor(x.converged, 30*time.Second) {
+				x.fail("sync-waits-for-webhook-answers|"+x.class(), fmt.Sprintf("with %d webhook deliveries accepted and not yet answered the sync did not come to rest within the watchdog (tip at height %d of %d); as soon as the endpoint answered, it ran to completion", pending, th, len(x.w.Honest)))
+				return
+			}
+			res.Verdict, res.What = "inconclusive", "quiescence barrier watchdog fired at: initial sync (webhook deliveries pending)"
+			res.Events = x.rig.Log.Tail(40)
+			return
+		}
+		x.count("syncs_at_rest_with_webhook_deliveries_unanswered", 1)
+		x.count("webhook_deliveries_unanswered_at_quiescence", x.hook.pending.Load())
 	}
 	if !x.quiesce("initial sync") {
 		return
 	}
 	// "at least one honest peer stays reachable": the service dials further addresses only when its
 	// connection manager's retry timer fires (seconds), so wait until the honest node is connected.
-	if s.Nodes[0].Kind == "honest" && s.Nodes[0].DisconnectAtMsg == 0 && s.Nodes[0].DropAfterHeight == 0 && len(x.nodes[0].Live()) == 0 {
+	if s.Nodes[0].Kind == "honest" && !s.Nodes[0].losesFirstConnection() && len(x.nodes[0].Live()) == 0 {
 		if !x.waitFor(func() bool { return len(x.nodes[0].Live()) > 0 }, 75*time.Second) {
 			res.Verdict, res.What = "inconclusive", "the service did not connect to the honest node within 75 s"
 			res.Events = x.rig.Log.Tail(40)
@@ -682,11 +774,14 @@ func Execute(s *Scenario, dir string) (res *Result) {
 	}
 	if s.WaitReconnect {
 		for i, ns := range s.Nodes {
-			if ns.DisconnectAtMsg > 0 || ns.DropAfterHeight > 0 {
+			if ns.losesFirstConnection() {
 				n := x.nodes[i]
 				// the service re-dials a dropped outbound peer (immediately or after the retry interval)
 				if !x.waitFor(func() bool { return len(n.Conns()) >= 2 && len(n.Live()) > 0 }, 40*time.Second) {
 					x.count("reconnect_not_observed", 1)
+					if x.slotLost(i, ns, 35*time.Second) {
+						return
+					}
 				} else {
 					x.count("reconnects_observed", 1)
 				}
@@ -698,7 +793,7 @@ func Execute(s *Scenario, dir string) (res *Result) {
 	}
 	// A single honest peer and nothing scripted to go wrong: what the peer offers has been fetched by now - before anything
 	// is announced (announcements would bring the missing blocks in by another path). A few rounds of slack as at the end.
-	if len(s.Nodes) == 1 && s.Nodes[0].Kind == "honest" && s.Nodes[0].DisconnectAtMsg == 0 && s.Nodes[0].DropAfterHeight == 0 && !s.Nodes[0].Silent &&
+	if len(s.Nodes) == 1 && s.Nodes[0].Kind == "honest" && (!s.Nodes[0].losesFirstConnection() || (s.WaitReconnect && len(x.nodes[0].Conns()) >= 2)) && !s.Nodes[0].Silent && !s.Nodes[0].SilentFirst &&
 		s.Nodes[0].VersionLag == 0 && s.SlowConvergeWaitSec == 0 && !s.DropNode0AfterSync && len(x.nodes[0].Live()) > 0 && res.Verdict == "held" {
 		for attempt := 0; attempt < 6 && !x.converged(); attempt++ {
 			time.Sleep(time.Duration(150*(attempt+1)) * time.Millisecond)
@@ -715,6 +810,9 @@ func Execute(s *Scenario, dir string) (res *Result) {
 			}
 			x.fail("not-converged-before-any-announcement|"+x.class(), fmt.Sprintf("connected to a single honest peer whose best chain has %d blocks, at quiescence (nothing announced yet) the tip is at height %d and is not that chain's tip", len(x.w.Honest), th))
 		}
+	}
+	if x.hook != nil {
+		x.hook.Release()
 	}
 	x.scenarioSpecificChecks("after-initial-sync")
 	// announcements
@@ -926,6 +1024,48 @@ func (x *runner) checkConverged() {
 		x.fail("ichain|"+cls, bad)
 	}
 	x.count("converged", 1)
+}
+
+// slotLost: "replaces an outbound connection that closes". Called when no re-dial has been seen for 30-40 s: a service that
+// holds no connection at all, knows the node's address and makes no dial attempt for another `more` (the retry interval is
+// 5 s) has lost the slot.
+func (x *runner) slotLost(i int, ns NodeSpec, more time.Duration) bool {
+	n := x.nodes[i]
+	anyOpen := func() bool {
+		for _, o := range x.nodes {
+			if len(o.Open()) > 0 {
+				return true
+			}
+		}
+		return false
+	}
+	cs := n.Conns()
+	dials := x.rig.DialCount()
+	if x.s.Engine != "legacy" || ns.Inbound || len(cs) == 0 || anyOpen() {
+		return false
+	}
+	if x.waitFor(func() bool { return anyOpen() || x.rig.DialCount() != dials }, more) {
+		return false
+	}
+	x.fail("closed-outbound-connection-not-replaced|"+x.lossClass(ns), fmt.Sprintf("%d outbound connection(s) to the only known node were closed by the remote side (%s); then, for more than 70 s, the service held no connection and made no dial attempt although it knows the node's address", len(cs), x.lossClass(ns)))
+	return true
+}
+
+// lossClass names the point at which a node's first connection is scripted to go away.
+func (x *runner) lossClass(ns NodeSpec) string {
+	switch {
+	case ns.CloseAfterVersion:
+		return "lost-after-its-version-before-its-verack"
+	case ns.DisconnectAtMsg == 1:
+		return "lost-before-its-version"
+	case ns.DisconnectAtMsg == 2:
+		return "lost-right-after-the-handshake"
+	case ns.DisconnectAtMsg > 0:
+		return "lost-mid-sync"
+	case ns.DropAfterHeight > 0:
+		return "lost-after-a-checkpoint-reply"
+	}
+	return "none"
 }
 
 // class is the structural class of the scenario used in signatures.
